@@ -88,6 +88,9 @@ class Instance(object):
 def collect(repo, f, env=None, depth=2, top_stmt=None, top_cond=TRUE, chain=()):
     """Validator call instances reachable from f, arguments rewritten over the entry's parameters."""
     env = env or {}
+    from ..normalise import unrolled
+    f = unrolled(repo, f)
+    repo = f.module.repo
     view = view_of(f)
 
     def ex(e, st):
@@ -115,9 +118,11 @@ def collect(repo, f, env=None, depth=2, top_stmt=None, top_cond=TRUE, chain=()):
 def work_functions(repo):
     work = set()
     edges = {}
+    from ..normalise import unrolled
     for f in repo.all_funcs():
         if f.name.startswith('validate_'):
             continue
+        f = unrolled(repo, f)
         for n in walk_own(f.node):
             if isinstance(n, (ast.For, ast.While, ast.ListComp, ast.GeneratorExp, ast.DictComp)):
                 work.add(f.where)
